@@ -5,6 +5,18 @@ ROOT = os.path.dirname(os.path.dirname(os.path.abspath(__file__)))
 
 # id -> (level category, technique, level text, level note, design ref)
 BUILT = {
+ "C35": ("exploration", "proptest-generated multi-thread programs x shuttle schedule exploration of the tree's own cache.rs + budget.rs; harness-owned pin counts and last-written values",
+         "Generated programs of 2-3 threads x 2-6 operations (get_or_insert with a loader that may fail, get, write/read through a PageRef, unpin) on caches with 1-3 entries per shard, four keys colliding in one shard, with and without a nearly full MemoryBudget; the loader running for a key the harness still pins = pinned page evicted, every read through a live PageRef must return the last value for its key, shard size <= capacity after every insert, no pins and a zero cache pool after clear() at quiescence.",
+         "clear() and evict_all_unpinned are not run concurrently with the other operations (the property lists get/insert/write/unpin).", "4 C35"),
+ "C37": ("exploration", "proptest-generated committer programs x shuttle schedule exploration of the tree's own group_commit.rs driven through a transcription of execute_small_commit's protocol; harness-owned log",
+         "Generated programs of 2-3 committer threads x 1-2 (thorough: 3) commits with generator-injected flush failures; every commit runs submit_and_wait/take_pending/flush/complete_batch|fail_batch as the database does; a commit returning Ok must be durable in the harness log exactly once at that moment, commits of failed batches must return Err, no deadlock (untimed condvar waits make a lost wakeup a deadlock), queue empty and flush flag clear at the end.",
+         "The caller protocol is transcribed by hand; build.rs fingerprints the code in transaction.rs and the check exits 2 if it changes. Default queue config only (as Database uses).", "4 C37"),
+ "C39": ("exploration", "proptest-generated multi-thread programs x shuttle schedule exploration of the tree's own budget.rs; harness-side sums as oracle",
+         "Generated programs of 2-3 threads x 2-6 allocate/try_allocate/release operations over the five pools of a 4 MiB budget with 0.5-3 MiB requests; after every successful allocation the harness's own sum of granted-and-unreleased bytes must not exceed total_limit, at quiescence each pool counter equals successful allocations minus releases and everything returns to zero.",
+         "The limit is judged on a harness-side lower bound of the tracked usage (total_used() itself is a non-atomic five-load sum); spurious allocation failures are not judged.", "4 C39"),
+ "C36": ("exploration", "proptest-generated multi-thread programs x shuttle schedule exploration (PCT depth 2-5 + uniform random) of the tree's own page_locks.rs compiled against shuttle primitives; harness-owned occupancy counters",
+         "Generated programs of 2-3 threads x 2-6 lock acquisitions (table intent S/X, page_read, page_write, page_write_multi on 5 pages of 2 tables, hierarchy-respecting order) run under 200 (quick) / 800 (thorough) controlled schedules each; per-page writer/reader occupancy counters owned by the harness are checked at every acquisition and after every hold, shuttle's deadlock detection covers 'every acquisition eventually succeeds', and the lock tables must be empty at quiescence.",
+         "Bounded preemption (PCT) and random scheduling, not exhaustive; shuttle models every atomic as SeqCst; parking_lot is replaced by the plshim crate (RwLock without writer preference).", "4 C36"),
  "C01": ("fault_enumeration", "crash-point enumeration (hook-numbered points, child ended with _exit) x kill and power-loss models, recovered state vs an uncrashed reference run",
          "Generated workloads (DDL, DML on indexed tables, transactions, checkpoints) under wal=ON, synchronous=FULL; every page mutation, file create/grow/remove/rename, WAL frame/flush/sync/truncate/rotate, catalog and meta write/sync is a numbered crash point (quick: stratified sample, thorough: every point); after the crash the directory is reopened as left (kill) and cut back to last-synced bytes per file (power loss); the observation must contain every acknowledged statement.",
          "Expected states come from a reference run of TurDB itself. Power-loss model per file with durable metadata operations; no torn sectors. A verdict must reproduce twice. The power-loss model is a listed finding in its entirety (witnessed); the kill model remains armed. Needs hook H1.", "4 C01"),
